@@ -678,23 +678,52 @@ def prop_entry(ch, ctx):
     elif first == 'force_ok':
         # force_reaction = the plain reaction semantics without the feasibility test (negative flows are kept)
         feed1 = rx.draw_feed(ch, 'feed1', len(pnames), nrows)
+        exact = ch.bool('feed1.exact')
+        if exact:
+            # co-reactants of the first member fed one ulp short of what X * reactant needs: the result holds a
+            # *negligible* negative entry, which force_reaction documents to clean up (and nothing else)
+            lf = refs[0]
+            a = ch.choice('feed1.reactant', [10.0, 3.0, 0.7])
+            feed1[lf.idx if tagged else (0, lf.idx)] = a
+            scale_r = a * (MW[lf.idx[1] if tagged else lf.idx] if False else 1.0)
+            for pos in zip(*np.nonzero(np.atleast_2d(lf.nu) < 0)):
+                if tuple(pos) == tuple(lf.idx if tagged else (0, lf.idx)):
+                    continue
+                need = scale_r * specs[0].X * abs(np.atleast_2d(lf.nu)[pos])
+                if basis == 'wt':
+                    # weight stoichiometry refers to mass of reactant; convert the need back to moles of co-reactant
+                    need = need * MW[lf.idx[1] if tagged else lf.idx] / MW[pos[1]]
+                feed1[pos] = np.nextafter(need, 0.0)
+            ctx.cell('entry:force-exact')
         if not tagged: feed1 = feed1[0]
-        t1 = ch.choice('target1', ['nd', 'S'])
+        t1 = ch.choice('target1', ['nd', 'S', 'sv'])
         if t1 == 'nd':
             target = feed1.copy(); fin = feed1
+        elif t1 == 'sv':
+            from thermosteam.base import SparseVector, SparseArray
+            target = SparseArray(feed1.copy()) if tagged else SparseVector(feed1.copy()); fin = feed1
         else:
             target = rx.build_stream(pid, np.atleast_2d(feed1), tuple(phases) if tagged else ['l'])
             fin = feed1 * MW if basis == 'wt' else feed1
         want = ref.apply(fin)
+        tot = float(np.abs(want).sum())
+        negligible = (want < 0) & (want > -1e-15 * max(tot, 1e-300))      # cleanup threshold of the code: -1e-16 * sum
         if t1 == 'S' and basis == 'wt':
             want = want / MW
-        ctx.call('force_reaction', obj.force_reaction, target, region=region1)
+        regf = f'kind={kk},basis={basis},ph={int(tagged)},tgt={t1},negl={int(negligible.any())}'
+        ctx.call('force_reaction', obj.force_reaction, target, region=regf)
         got = rx.dense_of(target).reshape(want.shape)
         sc = max(1.0, float(np.abs(fin).sum()), float(np.abs(want).sum()))
-        # documented clean-up: negligible negatives are removed
-        err = float(np.abs(got - np.where((want < 0) & (want > -1e-9 * sc), 0.0, want)).max())
-        if not err <= 1e-12 * sc + 1e-9 * sc * ((want < 0) & (want > -1e-6 * sc)).any():
-            ctx.fail(f'force_reaction|{region1},tgt={t1}|mismatch', f'max |got-ref| = {err!r} (scale {sc!r})')
+        # documented clean-up: negligible negative entries may be set to zero; every other entry is the plain result
+        d = np.abs(got - want)
+        d = np.where(negligible, np.minimum(d, np.abs(got)), d)
+        err = float(d.max())
+        if not err <= 1e-12 * sc:
+            k = int(d.argmax())
+            ctx.fail(f'force_reaction|{regf}|mismatch',
+                     f'entry {k}: got {got.ravel()[k]!r} want {want.ravel()[k]!r} (scale {sc!r}; negligible negatives in the plain result: {int(negligible.sum())})')
+        if negligible.any():
+            ctx.cell('entry:force-negligible-negative')
         ctx.cell('entry:force-ok')
         if (want < -1e-6 * sc).any():
             ctx.cell('entry:force-ok-negative')
